@@ -29,6 +29,28 @@ Theorem C10_three_level_order : forall route_mws inner_mws outer_mws l1 l2,
 Proof. exact three_level_order. Qed.
 Print Assumptions C10_three_level_order.
 
+(* NESTED = FLAT for the middleware list, at full strength: merging the route's list into the embedded application's
+   and the result into the embedding application's gives - success and failure alike - exactly the ONE keep-first
+   pass of the flat declaration over  outer ++ inner ++ route  (a unique type kept once, at its outermost position;
+   ValueError for a unique non-reorderable duplicate).  By induction this extends to any nesting depth, since the
+   right-hand side is itself a [merge_into]. *)
+Theorem C10_nested_merge_is_flat : forall route_mws inner_mws outer_mws,
+  match merge_mws route_mws inner_mws with
+  | Ok l1 => merge_mws l1 outer_mws
+  | Raise c => Raise c
+  end =
+  match merge_into outer_mws inner_mws with
+  | Ok acc => merge_into acc route_mws
+  | Raise c => Raise "ValueError"
+  end.
+Proof. exact nested_merge_is_flat. Qed.
+Print Assumptions C10_nested_merge_is_flat.
+
+Theorem C10_flat_pass_is_one_pass : forall a acc b,
+  merge_into acc (a ++ b) = match merge_into acc a with Ok acc' => merge_into acc' b | Raise c => Raise c end.
+Proof. exact merge_into_app. Qed.
+Print Assumptions C10_flat_pass_is_one_pass.
+
 (* resources at request time: the serving (outermost) application's value wins
    for a name it defines; every other name keeps the value bound further in *)
 Theorem C10_serving_app_wins : forall a b n v,
